@@ -363,3 +363,89 @@ func runOR5(c *load.Ctx, r *report.RuleResult) {
 		}
 	}
 }
+
+// OR-7: names met inside a type are resolved where the type itself was found.
+
+func init() {
+	register(&Rule{ID: "OR-7", Min: 1, Run: runOR7,
+		Doc: "the recursion checker keeps resolving in the table it started from: wherever a checker function looks a type name up in a table of types it received as a parameter and then descends into the type found with a call that takes a table of types again, the table handed down is that same parameter — the added type's own table holds only its anonymous types, so names of other user types met inside it would never be found and a cycle through two types (@a = {b: @b}, @b = {a: @a}) goes unnoticed"})
+}
+
+func isTypeTable(t types.Type) bool {
+	mt, ok := t.Underlying().(*types.Map)
+	if !ok {
+		return false
+	}
+	o, ok := isSchemaOwnedType(mt.Elem())
+	return ok && o == pkgSchema+".Type"
+}
+
+func runOR7(c *load.Ctx, r *report.RuleResult) {
+	n := 0
+	for _, fn := range c.ModuleFunctions() {
+		if load.FuncPkgRel(fn) != pkgChecker || fn.Synthetic != "" {
+			continue
+		}
+		var table *ssa.Parameter
+		for _, p := range fn.Params {
+			if isTypeTable(p.Type()) {
+				table = p
+			}
+		}
+		if table == nil {
+			continue
+		}
+		// a lookup in the parameter table …
+		var found []ssa.Value
+		for _, b := range fn.Blocks {
+			for _, ins := range b.Instrs {
+				if lk, ok := ins.(*ssa.Lookup); ok && lk.X == ssa.Value(table) {
+					found = append(found, lk)
+				}
+			}
+		}
+		if len(found) == 0 {
+			continue
+		}
+		// … followed by a descent that takes a table again
+		for _, b := range fn.Blocks {
+			for _, ins := range b.Instrs {
+				call, ok := ins.(*ssa.Call)
+				if !ok {
+					continue
+				}
+				sc := call.Call.StaticCallee()
+				if sc == nil || !load.FuncInModule(sc) {
+					continue
+				}
+				for i, a := range call.Call.Args {
+					if !isTypeTable(a.Type()) {
+						continue
+					}
+					// only descents into what the lookup found
+					uses := false
+					for _, a2 := range call.Call.Args {
+						for _, f := range found {
+							if flowsFrom(a2, f, map[ssa.Value]bool{}, 0) {
+								uses = true
+							}
+						}
+					}
+					if !uses {
+						continue
+					}
+					n++
+					key := fmt.Sprintf("sametable|%s|call %s arg %d", load.FuncKey(fn), sc.Name(), i)
+					if a == ssa.Value(table) {
+						r.OK(key, c.Pos(call.Pos()), "descends with the table the type was found in")
+					} else {
+						r.Bad(key, c.Pos(call.Pos()), fmt.Sprintf("the type is looked up in the table %s but the descent through %s gets %s: names of other user types met inside the type are not resolved, so a cycle through two or more types is not detected", table.Name(), sc.Name(), describeValue(a)))
+					}
+				}
+			}
+		}
+	}
+	if n == 0 {
+		r.Unk("anchor|checker type-table descents", "", "no checker function looks a type up in a parameter table and descends with a table")
+	}
+}
